@@ -100,6 +100,27 @@ def corpus(scratch, rnd):
     items.append(("mfm-anomalies", p, base_cmds[:8]))
     p = mkflux.image_to_flux(bytes(img), 40, 18, "MFM", "hfe", os.path.join(scratch, "anom.hfe"), prologue=anomalies)
     items.append(("hfe-mfm-anomalies", p, base_cmds[:8]))
+    # a marginal FM image: one clock bit missing inside a data field whose data bits and CRC are fine (whatever the decoder makes of
+    # it, it makes the same of it with and without --verbose, compressed or not, with and without assertions)
+    img = mkdisc.surface_dfs(400, 52, title=b"GZCLK", entries=files(400))
+    tr = []
+    for t in range(40):
+        secs = {r: bytes(img[(t * 10 + r) * 256:(t * 10 + r + 1) * 256]) for r in range(10)}
+        tk = mkflux.build_track("FM", t, 0, secs)
+        if t in (0, 7):
+            it = [x for x in tk.items if x["kind"] == "data" and x["rec"] == 3][0]
+            pos = it["body"] + 2 * 8 * 40            # the clock cell of the first bit of the 41st data byte
+            if tk.cells[pos] == 1:
+                tk.cells[pos] = 0
+        tr.append(mkflux.hfe_side_stream(tk))
+    p = os.path.join(scratch, "clk.hfe")
+    mkflux.write_hfe(p, [tr], 40, "FM")
+    items.append(("hfe-clock-glitch", p, base_cmds[:8]))
+    # control characters in names and title (TAB moves the column `cat` believes it is in)
+    ctl = [E(b"A\tB", length=10, start=30), E(b"\tX", length=10, start=28), E(b"Y\t", "D", True, 0, 0, 10, 26), E(b"Z", length=10, start=24), E(b"W\x07", length=10, start=22),
+           E(b"V", length=10, start=20)]
+    d = discs.build("DFS", ctl, scratch, "ctl", nsectors=400, salt=53, title=b"TI\tTLE\x08X")
+    items.append(("ctrl-names", d.path, [["cat"], ["--ui", "watford", "cat"], ["--ui", "opus", "cat"], ["info", "#.*"], ["--dir", "D", "cat"], ["show-titles"]]))
     # an HFE file that ends exactly where its last track ends (no 512-byte padding): the reader's last read is short
     raw = open(p, "rb").read() if False else None
     hp = os.path.join(scratch, "nopad.hfe")
